@@ -31,11 +31,11 @@ For every well-formed suite (`Suite.WF`: TLS 1.0–1.3; AEAD with prefix or XOR 
 * `tamper_errors_aead`, `tamper_errors_stream` — under authenticity (hypothesis), if the bytes at the
   head of the wire differ in any way from the genuine next record, `readRecord` does not deliver
   anything (it fails or waits for bytes that never form a valid record);
-  `tamper_never_alters` — CBC and RC4: whatever is accepted carries the genuine content type and
-  plaintext (for CBC with an explicit IV "accepted ⇒ identical ciphertext" additionally needs that
-  the adversary cannot produce a second (IV, ciphertext) decrypting to the same padded plaintext —
-  a property of the block cipher as a keyed permutation, not of the record layer; it is not assumed
-  here).
+  `tamper_never_alters` — CBC and RC4, MAC authenticity only: whatever is accepted carries the
+  genuine content type and plaintext; `tamper_errors_cbc` — CBC: never delivers, under MAC
+  authenticity plus `hCbc` (the adversary cannot present a second (IV, ciphertext) decrypting to the
+  genuine data ‖ MAC ‖ some padding — a property of the block cipher as a keyed permutation, not of
+  the record layer; kept as a separate, explicit hypothesis).
 -/
 namespace C25
 open Wire Keystream Record
@@ -269,6 +269,31 @@ theorem tamper_errors_stream (C : Crypto) (s : Suite) (hs : s.WF) (hC : C.Laws s
   have ht1 : typ < 256 := by rcases ht with h | h <;> rw [h] <;> decide
   have hta : typ ≠ tAlert := by rcases ht with h | h <;> rw [h] <;> decide
   have heq := stream_only_genuine C s hs hC hk c.inn w hsy typ ht0 ht1 hta d hd _ hf' d' typ' r'' hok (hMac _)
+  exact hne (take_of_framed_eq c.raw _ n hn hf' heq)
+
+/-- **tamper_errors (CBC suites)**: as above, under MAC authenticity `hMac` and the block-cipher
+hypothesis `hCbc` (see the module comment); without `hCbc` see `tamper_never_alters`. -/
+theorem tamper_errors_cbc (C : Crypto) (s : Suite) (hs : s.WF) (hC : C.Laws s.tagLen s.macLen)
+    (hk : s.kind = .cbc) (c : Conn) (hps : c.p.s = s) (w : Half) (hsy : Sync s c.inn w)
+    (typ : Nat) (ht : typ = tApp ∨ typ = tHs) (d : Bytes) (hd : d.length ≤ maxPlaintext)
+    (hne : c.raw.take (encrypt C s w typ d).1.length ≠ (encrypt C s w typ d).1)
+    (hMac : ∀ rec' m t, C.mac c.inn.macKey m = t →
+      m = seq8 c.inn.seq ++ rec'.take 3 ++
+        u16 ((mtePlain C s c.inn rec').1.length - s.macLen - (mtePlain C s c.inn rec').2.1) ++
+        (mtePlain C s c.inn rec').1.take ((mtePlain C s c.inn rec').1.length - s.macLen - (mtePlain C s c.inn rec').2.1) →
+      t = ((mtePlain C s c.inn rec').1.drop ((mtePlain C s c.inn rec').1.length - s.macLen - (mtePlain C s c.inn rec').2.1)).take s.macLen →
+      m = seq8 w.seq ++ hdr typ (wireVers s.vers) d.length ++ d)
+    (hCbc : ∀ rec' pad, (mtePlain C s c.inn rec').1 =
+        d ++ C.mac w.macKey (seq8 w.seq ++ hdr typ (wireVers s.vers) d.length ++ d) ++ pad →
+      rec'.drop 5 = (encrypt C s w typ d).1.drop 5)
+    (c' : Conn) (sent : List Bytes) : readRecord C c ≠ .next c' sent := by
+  intro hnext
+  obtain ⟨n, d', typ', r'', hf', hn, hok, _⟩ := readRecord_next_inv C c c' sent hnext
+  rw [hps] at hok
+  have ht0 : 0 < typ := by rcases ht with h | h <;> rw [h] <;> decide
+  have ht1 : typ < 256 := by rcases ht with h | h <;> rw [h] <;> decide
+  have hta : typ ≠ tAlert := by rcases ht with h | h <;> rw [h] <;> decide
+  have heq := cbc_only_genuine C s hs hC hk c.inn w hsy typ ht0 ht1 hta d hd _ hf' d' typ' r'' hok (hMac _) (hCbc _)
   exact hne (take_of_framed_eq c.raw _ n hn hf' heq)
 
 /-- **tamper_never_alters (CBC and RC4 suites)**: if `readRecord` consumes *anything* in place of the
